@@ -146,6 +146,7 @@ func NewTriggerBroker(nchan int) *TriggerBroker {
 // AddConnection connects source -> receiver for group triggers.
 // It is safe to add connections that already exist.
 func (broker *TriggerBroker) AddConnection(source, receiver int) error {
+	verifPoint("own:broker-write")
 	// Don't connect a channel to itself. (Silently ignore this request.)
 	if source == receiver {
 		return nil
@@ -168,6 +169,7 @@ func (broker *TriggerBroker) AddConnection(source, receiver int) error {
 // DeleteConnection disconnects source -> receiver for group triggers.
 // It is safe to delete connections whether they exist or not.
 func (broker *TriggerBroker) DeleteConnection(source, receiver int) error {
+	verifPoint("own:broker-write")
 	if receiver < 0 || receiver >= broker.nchannels {
 		return fmt.Errorf("could not remove channel %d as a group receiver (nchannels=%d)",
 			receiver, broker.nchannels)
@@ -181,6 +183,7 @@ func (broker *TriggerBroker) DeleteConnection(source, receiver int) error {
 
 // StopTriggerCoupling ends all trigger coupling: both group triggering and TDM-style FB-Err coupling.
 func (broker *TriggerBroker) StopTriggerCoupling() error {
+	verifPoint("own:broker-write")
 	for i := range broker.sources {
 		broker.sources[i] = make(map[int]bool)
 	}
@@ -207,6 +210,7 @@ func (broker *TriggerBroker) SourcesForReceiver(receiver int) map[int]bool {
 }
 
 func (broker *TriggerBroker) computeGroupTriggerState() (gts GroupTriggerState) {
+	verifPoint("own:broker-read")
 	conns := make(map[int][]int)
 	for rx, sources := range broker.sources {
 		for source := range sources {
